@@ -85,6 +85,9 @@ def install(I):
         st = ctx.st
         if any(b == 1 for b in extra):
             return [ctx.panic('bit_field::set_bits: value does not fit')]
+        rv = ctx.I.rng_of(st, val)
+        if rv and min(a for a, _ in rv) >= (1 << (hi - lo)):
+            return [ctx.panic('bit_field::set_bits: value does not fit')]
         if any(b != 0 for b in extra):
             # value may not fit: split on (extra == 0)
             fit = eq0_bit(tuple(extra))
@@ -695,6 +698,40 @@ def install(I):
     M['core::slice::<impl [T]>::as_ptr'] = m_slice_as_ptr
     M['core::slice::<impl [T]>::as_mut_ptr'] = m_slice_as_ptr
 
+    def m_array_index(ctx):
+        r, i = ctx.args[0], ctx.args[1]
+        if not isinstance(r, Ref):
+            raise Unsupported('index of %r' % (r,))
+        if isinstance(i, BV):
+            return Ref(r.loc, r.path + (('idx', i),), r.raw)
+        if isinstance(i, Struct):
+            n = i.name
+            arr = None
+            try:
+                arr = ctx.I.load(ctx.st, r)
+            except Unsupported:
+                pass
+            ln = arr.length if isinstance(arr, Array) else None
+            lnv = ln if isinstance(ln, BV) else (BV.const(64, ln) if ln is not None else None)
+            if n.endswith('ops::Range'):
+                s, e = i.fields[0], i.fields[1]
+            elif n.endswith('RangeTo'):
+                s, e = BV.const(64, 0), i.fields[0]
+            elif n.endswith('RangeFrom'):
+                s, e = i.fields[0], lnv
+            elif n.endswith('RangeFull'):
+                s, e = BV.const(64, 0), lnv
+            elif n.endswith('RangeInclusive'):
+                s, e = i.fields[0], ctx.I.binop(ctx.st, 'Add', i.fields[1], BV.const(64, 1))
+            else:
+                raise Unsupported('index by %r' % (i,))
+            # core's bounds checks (start <= end <= len) are trusted library semantics, recorded as an event
+            ctx.st.events.append(('slice-index', r, s, e, lnv, ctx.loc, ctx.fr.f['name']))
+            return Ref(r.loc, r.path + (('sub', s, e),), r.raw)
+        raise Unsupported('index by %r' % (i,))
+    P.append((re.compile(r'^core::array::<impl core::ops::Index(Mut)?<I> for \[T; N\]>::index(_mut)?$'), m_array_index))
+    P.append((re.compile(r'^core::slice::index::<impl core::ops::Index(Mut)?<I> for \[T\]>::index(_mut)?$'), m_array_index))
+
     def m_slice_len(ctx):
         return ctx.I.slice_len(ctx.st, ctx.args[0])
     M['core::slice::<impl [T]>::len'] = m_slice_len
@@ -748,6 +785,8 @@ def install(I):
             n = v.name if isinstance(v, Struct) else ''
 
             def fld(i):
+                if isinstance(v.fields[i], Ref):
+                    return v.fields[i]   # Range<&u8>: the bound is the stored reference itself
                 return Ref(r.loc, r.path + (i,))
             inc = lambda x: Enum(BOUND, 0, 'Included', [x])
             exc = lambda x: Enum(BOUND, 1, 'Excluded', [x])
@@ -771,6 +810,8 @@ def install(I):
                     if b.vname == 'Unbounded':
                         return unb
                     inner = Ref(r.loc, r.path + (0 if which == 'start' else 1, 0))
+                    if isinstance(b.fields[0], Ref):
+                        inner = b.fields[0]
                     return Enum(BOUND, b.vi, b.vname, [inner])
             raise Unsupported('RangeBounds::%s_bound of %r' % (which, v))
         return f
